@@ -1,5 +1,5 @@
 #!/usr/bin/env python3
-"""C06 -- simple fonts: code -> Unicode / width follow encoding, glyph names, ToUnicode (DESIGN.md 3.C06)."""
+"""C06 -- simple fonts: code -> Unicode / width follow encoding, glyph names, ToUnicode (DESIGN.md section 4, C06)."""
 import io
 import os
 import sys
@@ -50,7 +50,7 @@ MANIFEST_ENTRY = {
             "else the standard-14 metric of the code's character, else MissingWidth, times 1/1000 or FontMatrix[0]; every "
             "ENCODING row name has a Unicode value and the glyph list has unique keys and no surrogates (vm_compute).",
     "note": "Trusted: Coq kernel, table generator, hand model tied by differential runs; spec/*.txt reference snapshot.",
-    "design_ref": "DESIGN.md 3.C06",
+    "design_ref": "DESIGN.md section 4, C06",
 }
 
 HERE = os.path.dirname(os.path.abspath(__file__))
